@@ -977,7 +977,9 @@ class ReorientationSegment(DataSegment):
     def flush(self) -> None:
         self._validate_closed()
         try:
-            self.parent.flush()
+            # NB: the parent may have been closed already by another segment sharing it
+            if not self.parent.closed:
+                self.parent.flush()
         except AttributeError:
             return
 
@@ -1378,7 +1380,9 @@ class SubsetSegment(DataSegment):
     def flush(self) -> None:
         self._validate_closed()
         try:
-            self.parent.flush()
+            # NB: the parent may have been closed already by another segment sharing it
+            if not self.parent.closed:
+                self.parent.flush()
         except AttributeError:
             return
 
@@ -1659,7 +1663,9 @@ class BandAggregateSegment(DataSegment):
         try:
             if self.children is not None:
                 for child in self.children:
-                    child.flush()
+                    # NB: a child may have been closed already by another segment sharing it
+                    if not child.closed:
+                        child.flush()
         except AttributeError:
             return
 
@@ -1926,7 +1932,9 @@ class BlockAggregateSegment(DataSegment):
         try:
             if self.children is not None:
                 for child in self.children:
-                    child.flush()
+                    # NB: a child may have been closed already by another segment sharing it
+                    if not child.closed:
+                        child.flush()
         except AttributeError:
             return
 
